@@ -20,9 +20,42 @@ import (
 //   - Skip: field paths (exact, with [*] for any map key / slice index) that are not rendered.
 //   - AsSet: slice paths whose element order is not meaningful (elements are sorted by their
 //     own rendering).
+//   - ElideZero: map paths (matched as a suffix of the generic path) whose entries with a zero
+//     scalar value or an empty map/slice value are rendered as absent (additive bookkeeping maps
+//     where "x -= v" on rollback leaves a zero entry behind).
+//   - SkipSuffix: like Skip, matched as a suffix of the generic path.
 type CanonOpts struct {
-	Skip  map[string]bool
-	AsSet map[string]bool
+	Skip       map[string]bool
+	SkipSuffix []string
+	AsSet      map[string]bool
+	ElideZero  []string
+}
+
+func (o *CanonOpts) elide(gpath string) bool {
+	for _, s := range o.ElideZero {
+		if strings.HasSuffix(gpath, s) {
+			return true
+		}
+	}
+	return false
+}
+
+func isZeroish(v reflect.Value) bool {
+	for v.Kind() == reflect.Ptr || v.Kind() == reflect.Interface {
+		if v.IsNil() {
+			return true
+		}
+		v = v.Elem()
+	}
+	switch v.Kind() {
+	case reflect.Map, reflect.Slice:
+		return v.Len() == 0
+	case reflect.Int, reflect.Int8, reflect.Int16, reflect.Int32, reflect.Int64:
+		return v.Int() == 0
+	case reflect.Uint, reflect.Uint8, reflect.Uint16, reflect.Uint32, reflect.Uint64:
+		return v.Uint() == 0
+	}
+	return false
 }
 
 type canon struct {
@@ -192,6 +225,11 @@ func (c *canon) walk(path, gpath string, v reflect.Value) {
 	if c.o.Skip[gpath] {
 		return
 	}
+	for _, sfx := range c.o.SkipSuffix {
+		if strings.HasSuffix(gpath, sfx) {
+			return
+		}
+	}
 	if !v.IsValid() {
 		c.emit(path, "nil")
 		return
@@ -253,7 +291,11 @@ func (c *canon) walk(path, gpath string, v reflect.Value) {
 		}
 		var items []kv
 		it := v.MapRange()
+		el := c.o.elide(gpath)
 		for it.Next() {
+			if el && isZeroish(it.Value()) {
+				continue
+			}
 			items = append(items, kv{inline(readable(it.Key()), c.o), it.Value()})
 		}
 		sort.Slice(items, func(i, j int) bool { return items[i].k < items[j].k })
